@@ -259,6 +259,7 @@ def run_real(inst, d, env=None, timeout=60, bufsize=None, driver=None):
              SCIPIPE_BUFSIZE=str(bufsize if bufsize is not None else inst.get("bufsize", 1)))
     e.update(env or {})
     rr = RealRun()
+    rr.workdir = d
     t0 = time.time()
     p = subprocess.Popen([drv, "wf.json"], cwd=d, env=e, stdout=subprocess.PIPE, stderr=subprocess.PIPE,
                          start_new_session=True)
